@@ -52,6 +52,7 @@ FromBufOK(r) ==
         match == /\ r.fmt = FnFmt(r.fn)
                  /\ r.itemsize = SizeOf(FnFmt(r.fn))
                  /\ IF w = 1 THEN r.ndim = 1 ELSE (r.ndim = 2 /\ r.shape[2] = w)
+                 /\ r.contig = 1                    \* a strided or reversed view does not describe one block of memory: rejected
         rows == r.shape[1]
     IN  IF match
         THEN r.exc = 0 /\ r.out = [i \in 1..rows |-> [j \in 1..w |-> r.vals[(i - 1) * w + j]]]
